@@ -1,5 +1,6 @@
 """C09 — derived names are valid identifiers and never merge silently.
-Stage B: utils name functions vs Names.v (vm_compute), on random / special / boundary strings.
+Stage B: utils name functions vs Names.v (vm_compute), on random / special / boundary strings; per-scope collision logic
+(model attributes, endpoint parameters, class names) through the real parser functions vs Scopes.v.
 Stage C: isidentifier / iskeyword on every derived name; name sets per scope through the real parser."""
 import keyword, importlib
 from lib.common import cstr, cbool, run_cases, coq_eval
@@ -35,13 +36,20 @@ def gen_strings(run, tier):
 def run(run, tier, replay=None):
     from openapi_python_client import utils
     strs = gen_strings(run, tier)
+    scope_replay = None
     if replay:
         import json
-        strs = [v["input"] for v in json.load(open(replay))["violations"] if "input" in v]
+        rv = json.load(open(replay))["violations"]
+        strs = [v["input"] for v in rv if "input" in v]
+        scope_replay = [v["scope_case"] for v in rv if "scope_case" in v]
     run.rule = ("strings from 3 alphabets (ordinary / hostile / all planes), keywords+builtins with case variants, and every code point where a "
                 "character predicate or case map of the interpreter changes value, in leading/inner/trailing position; a case is one (function, string, prefix) "
                 "evaluation; non-trivial = the sanitized string is non-empty; distinct by hash of (function, string, prefix). Name sets: random sets of 2-5 names "
-                "sharing a snake_case image, placed as model properties / parameters / enum values / schemas / operationIds through the real parser")
+                "sharing a snake_case image, placed as model properties / parameters / enum values / schemas / operationIds through the real parser. "
+                "Scope lists (stage B for Scopes.v): 2-6 distinct names (parameters: (location, name) pairs with distinct keys) built from case / delimiter / affix variants of one base word, "
+                "reserved words (self, class, client, url), the raw-name fallback or the <name>_<location> form of an earlier member, plus random ordinary / hostile strings; a case is one list "
+                "through the real function; kind .../no-conflict = the observed python names are just the default names; distinct by hash of (scope, list)")
+    run.assumptions.append("str.lower() final-sigma context rule is not modelled: string cases are compared modulo the sigma fold and scope name lists avoid U+03A3")
     terms, meta = [], []
     for s in strs:
         pfx = "field_" if run.rng.random() < 0.7 else run.rng.choice(PREFIXES)
@@ -88,7 +96,312 @@ def run(run, tier, replay=None):
                     run.violation("oracle", {"fn": fn, "input": s, "prefix": pfx, "impl": got, "note": "not an identifier; guard g_xid false but finding not listed"})
         else:
             run.violation("oracle", {"fn": fn, "input": s, "prefix": pfx, "impl": got, "note": "inside the proved domain (guard true) yet not a valid non-keyword identifier"})
-    scopes(run, tier)
+    scopes_corr(run, tier, scope_replay)
+    if not replay:
+        scopes(run, tier)
+
+
+# ------------------------------------------------------------------ stage B for scopes: real collision logic vs Scopes.v
+HDR2 = HDR + """
+Require Import OPC.Scopes.
+Definition fp : str := [102;105;101;108;100;95].
+Definition lse (a b : list str) := Nat.eqb (length a) (length b) && forallb (fun p => eqf (fst p) (snd p)) (combine a b).
+Definition rse (a b : res (list str)) := match a, b with Ok x, Ok y => lse x y | Err, Err => true | _, _ => false end.
+Definition cls_ok (names cs errs : list str) := let r := model_classes fp names in lse (fst r) cs && lse (snd r) errs.
+"""
+LOCS = {"path": "LPath", "query": "LQuery", "header": "LHeader", "cookie": "LCookie"}
+LOC_ORDER = ["path", "query", "header", "cookie"]
+
+
+def _variants(rng, base_words):
+    sep = rng.choice(["_", "-", " ", ".", "", "__"])
+    ws = [rng.choice([x, x.upper(), x.capitalize()]) for x in base_words]
+    v = sep.join(ws)
+    if rng.random() < 0.25:
+        v = rng.choice(["_", "$", " ", "-"]) + v
+    if rng.random() < 0.25:
+        v = v + rng.choice(["_", "$", "!", " "])
+    return v
+
+
+BASES = ["item id", "http response", "a b", "x", "user name", "v 1", "class", "self", "client", "url", "id", "x header", "x query", "self", "true", "none", "a"]
+
+
+def gen_name_list(rng):
+    """2-6 distinct names: snake-case twins, reserved words, case twins frequent."""
+    k = rng.randint(2, 6)
+    out = []
+    base = rng.choice(BASES).split(" ")
+    tries = 0
+    while len(out) < k and tries < 40:
+        tries += 1
+        r = rng.random()
+        if r < 0.55:
+            v = _variants(rng, base)
+        elif r < 0.7:
+            v = _variants(rng, rng.choice(BASES).split(" "))
+        elif r < 0.8 and out:
+            # the raw-name fallback of an earlier name as a third party
+            from openapi_python_client.utils import PythonIdentifier
+            v = str(PythonIdentifier(rng.choice(out), "field_", skip_snake_case=rng.random() < 0.7))
+        elif r < 0.9:
+            v = S.rand_str(rng, S.ORD, 5)
+        else:
+            v = S.rand_str(rng, S.HOSTILE, 5)
+        # U+03A3: str.lower() picks final or medial sigma by context, the model's lower always gives the medial one (the string stage
+        # compares modulo that fold); a COLLISION decided by it would differ, so capital sigma stays out of the scope name lists
+        if v and v not in out and "\u03a3" not in v:
+            out.append(v)
+    return out
+
+
+def gen_param_list(rng):
+    """2-6 (location, name) pairs with distinct keys: location twins, reserved client/url, names equal to an earlier name's
+    suffixed form (x_query, x_header_path) so that second-run conflicts arise."""
+    names = gen_name_list(rng)
+    out = []
+    for nm in names:
+        loc = rng.choice(LOC_ORDER)
+        out.append((loc, nm))
+    for _ in range(rng.randint(0, 3)):
+        if len(out) >= 6:
+            break
+        r = rng.random()
+        loc0, nm0 = rng.choice(out)
+        from openapi_python_client.utils import PythonIdentifier
+        py0 = str(PythonIdentifier(nm0, "field_"))
+        if r < 0.35:
+            cand = (rng.choice([l for l in LOC_ORDER if l != loc0]), rng.choice([nm0, nm0.upper(), nm0.capitalize()]))   # location twin
+        elif r < 0.7:
+            cand = (rng.choice(LOC_ORDER), py0 + "_" + rng.choice(LOC_ORDER))                                            # collides with a suffixed rename
+        elif r < 0.85:
+            cand = (rng.choice(LOC_ORDER), py0 + "_" + rng.choice(LOC_ORDER) + "_" + rng.choice(LOC_ORDER))
+        else:
+            cand = (rng.choice(LOC_ORDER), rng.choice(["client", "url", "Client", "URL", "client_query", "url_path", "client-header"]))
+        if cand[1] and cand not in out:
+            out.append(cand)
+    rng.shuffle(out)
+    return out
+
+
+def gen_class_list(rng):
+    k = rng.randint(2, 5)
+    out = []
+    base = rng.choice(["a b", "item id", "http response", "x", "user", "class", "none", "v 1"]).split(" ")
+    while len(out) < k:
+        r = rng.random()
+        if r < 0.7:
+            v = rng.choice(["", "", "", "X/", "$"]) + rng.choice(["_", "-", " ", ".", ""]).join(rng.choice([x, x.upper(), x.capitalize()]) for x in base)
+        else:
+            v = S.rand_str(rng, S.ORD, 5)
+        if v and v not in out and "#" not in v and "\u03a3" not in v:
+            out.append(v)
+    return out
+
+
+_CFG = None
+
+
+def _cfg():
+    global _CFG
+    if _CFG is None:
+        import tempfile, pathlib, shutil
+        d = pathlib.Path(tempfile.mkdtemp(prefix="opc_c09_"))
+        try:
+            _CFG = impl.make_config(d / "doc.json", d / "out")
+        finally:
+            shutil.rmtree(d, ignore_errors=True)
+    return _CFG
+
+
+def real_attrs(names):
+    """python_name of every property of an object schema with these property names, through the real property_from_data
+    (ModelProperty.build -> _process_properties -> _add_if_no_conflict), or ('ERR', header, detail)."""
+    from openapi_python_client import schema as oai
+    from openapi_python_client.parser.properties import property_from_data, Schemas
+    from openapi_python_client.parser.errors import ParseError
+    data = oai.Schema.model_validate({"type": "object", "properties": {n: {"type": "string"} for n in names}})
+    p, _ = property_from_data(name="M", required=True, data=data, schemas=Schemas(), parent_name="", config=_cfg(), process_properties=True, roots={"root"})
+    if isinstance(p, ParseError):
+        return ("ERR", str(p.header), str(p.detail))
+    allp = {x.name: str(x.python_name) for x in list(p.required_properties) + list(p.optional_properties)}
+    from openapi_python_client.utils import remove_string_escapes
+    return [allp[remove_string_escapes(n)] for n in names]   # property_from_data stores the escaped name
+
+
+def real_params(ps):
+    """(location, name, python_name) in iter_all_parameters order after the real Endpoint.add_parameters (which ends in
+    _check_parameters_for_conflicts), or ('ERR', detail)."""
+    from openapi_python_client import schema as oai
+    from openapi_python_client.parser.properties import Schemas, Parameters
+    from openapi_python_client.parser.openapi import Endpoint
+    from openapi_python_client.parser.errors import ParseError
+    op = oai.Operation.model_validate({"parameters": [{"name": n, "in": l, "required": True, "schema": {"type": "string"}} for l, n in ps], "responses": {}})
+    ep = Endpoint(path="/p", method="get", summary="", description="", name="op", requires_security=False, tags=[])
+    r, _, _ = Endpoint.add_parameters(endpoint=ep, data=op, schemas=Schemas(), parameters=Parameters(), config=_cfg())
+    if isinstance(r, ParseError):
+        return ("ERR", str(r.detail))
+    return [(str(l), p.name, str(p.python_name)) for l, p in r.iter_all_parameters()]
+
+
+def real_classes(names):
+    """(class names generated in order, names of the schemas rejected as duplicate class) through the real document parser."""
+    schemas = {n: {"type": "object", "description": str(i), "properties": {"v": {"type": "string"}}} for i, n in enumerate(names)}
+    data, _ = impl.parse_doc(impl.base_doc(components={"schemas": schemas}))
+    if not hasattr(data, "models"):
+        return ("ERR", str(data))
+    ms = list(data.models)
+    cs = [str(m.class_info.name) for m in ms]
+    mods = [str(m.class_info.module_name) for m in ms]
+    errs, other = [], []
+    for e in data.errors:
+        if "Attempted to generate duplicate models" in str(e.detail) and getattr(e.data, "description", None) is not None:
+            errs.append(names[int(e.data.description)])
+        else:
+            other.append(str(e.detail))
+    return (cs, errs, other, mods)
+
+
+def cparams(ps):
+    return "[" + "; ".join(f"({LOCS[l]}, {cstr(n)})" for l, n in ps) + "]" if ps else "(@nil (loc * str))"
+
+
+def cstrs(l):
+    return "[" + "; ".join(cstr(x) for x in l) + "]" if l else "(@nil str)"
+
+
+def scopes_corr(run, tier, replay_cases=None):
+    rng = run.rng
+    n = 800 if tier == "quick" else 10000
+    cases = []
+    if replay_cases is not None:
+        cases = [(c["scope"], [tuple(x) if isinstance(x, list) else x for x in c["input"]]) for c in replay_cases]
+    else:
+        cases += [("attrs", ["a-b", "a_b"]), ("attrs", ["Self", "self!", "$Self"]), ("attrs", ["itemId", "item_id", "ItemID"]), ("attrs", ["a b", "a_b", "a-b"]),
+                  ("params", [("path", "x_header_path"), ("path", "x_header"), ("query", "X"), ("header", "x")]),
+                  ("params", [("query", "client"), ("header", "client"), ("query", "url"), ("cookie", "client_query")]),
+                  ("params", [("query", "id"), ("path", "id"), ("header", "Id")]), ("params", [("query", "a b"), ("query", "a_b")]),
+                  ("params", [("query", "client"), ("path", "url")]), ("params", [("header", "x"), ("query", "x"), ("cookie", "x"), ("path", "x")]),
+                  ("classes", ["AB", "Ab"]), ("classes", ["AB", "A_B", "ab"]), ("classes", ["X/AB", "AB"])]
+        for _ in range(n):
+            cases.append(("attrs", gen_name_list(rng)))
+            cases.append(("params", gen_param_list(rng)))
+        for _ in range(n // 6):
+            cases.append(("classes", gen_class_list(rng)))
+    terms, meta = [], []
+    for scope, inp in cases:
+        if scope == "attrs":
+            got = real_attrs(inp)
+            if isinstance(got, tuple):
+                if got[1] != "Conflicting property names":
+                    run.violation("correspondence", {"scope_case": {"scope": scope, "input": inp}, "impl": got, "note": "unexpected error kind from property_from_data"})
+                    continue
+                obs = "Err"
+            else:
+                obs = f"Ok {cstrs(got)}"
+            terms.append(f"rse (res_pys (model_attrs fp {cstrs(inp)})) ({obs})")
+        elif scope == "params":
+            got = real_params(inp)
+            if isinstance(got, tuple):
+                if "Parameters with same Python identifier" not in got[1]:
+                    run.violation("correspondence", {"scope_case": {"scope": scope, "input": inp}, "impl": got, "note": "unexpected error kind from Endpoint.add_parameters"})
+                    continue
+                obs = "Err"
+            else:
+                obs = f"Ok {cstrs([g[2] for g in got])}"
+            terms.append(f"rse (param_pys (model_params fp {cparams(inp)})) ({obs})")
+        else:
+            got = real_classes(inp)
+            if got[0] == "ERR" or got[2]:
+                run.violation("correspondence", {"scope_case": {"scope": scope, "input": inp}, "impl": got, "note": "unexpected diagnostics for plain object schemas"})
+                continue
+            terms.append(f"cls_ok {cstrs(inp)} {cstrs(got[0])} {cstrs(got[1])}")
+        meta.append((scope, inp, got))
+        nontriv = True
+        if scope in ("attrs", "params") and not isinstance(got, tuple):
+            from openapi_python_client.utils import PythonIdentifier
+            nm = inp if scope == "attrs" else [x[1] for x in inp]
+            py = got if scope == "attrs" else [g[2] for g in got]
+            nontriv = sorted(py) != sorted(str(PythonIdentifier(x, "field_")) for x in nm)   # some conflict path was taken
+        run.note_case({"scope": scope, "input": inp, "impl": got}, nontrivial=True, kind="scope-" + scope + ("" if nontriv else "/no-conflict"))
+    bad = run_cases(HDR2, terms, shard=120)
+    run.corr["cases"] += len(terms)
+    run.corr["mismatches"] += len(bad)
+    run.corr["what"] += ("; property_from_data(object schema) python names / 'Conflicting property names' == Scopes.model_attrs; Endpoint.add_parameters "
+                         "(_check_parameters_for_conflicts) python names / ParseError == Scopes.model_params; GeneratorData class names + duplicate-model errors == Scopes.model_classes")
+    for i in bad[:10]:
+        scope, inp, got = meta[i]
+        if scope == "attrs":
+            mterm = f"res_pys (model_attrs fp {cstrs(inp)})"
+        elif scope == "params":
+            mterm = f"param_pys (model_params fp {cparams(inp)})"
+        else:
+            mterm = f"model_classes fp {cstrs(inp)}"
+        model = coq_eval(HDR2, mterm)
+        run.violation("correspondence", {"scope_case": {"scope": scope, "input": inp}, "impl": got, "model": model[-400:],
+                                         "note": "the %s collision logic no longer computes the function modelled in Scopes.v (theorems of ScopesThm.v do not apply)" % scope})
+    _scope_oracle(run, [m for k, m in enumerate(meta) if k not in set(bad)])
+
+
+def _scope_oracle(run, meta):
+    """Stage C on the outputs observed in stage B: pairwise distinct, valid, non-reserved python names whenever no error was returned;
+    failures are classified by the Coq guards of ScopesThm.v (evaluated on exactly the failing inputs)."""
+    fails = []
+    for scope, inp, got in meta:
+        if scope == "classes":
+            cs, errs, _, mods = got
+            if len(set(cs)) != len(cs):
+                run.violation("oracle", {"scope_case": {"scope": scope, "input": inp}, "classes": cs, "note": "two schemas silently share one class name"})
+            if len(cs) + len(errs) != len(inp):
+                run.violation("oracle", {"scope_case": {"scope": scope, "input": inp}, "classes": cs, "errors": errs, "note": "a schema is neither generated nor reported"})
+            if len(set(mods)) != len(mods):
+                if not run.known_finding("module_collision_order", f"classes {cs!r} (schemas {inp!r}) are all generated but share module names {mods!r}: one models/<module>.py, no diagnostic"):
+                    run.violation("oracle", {"scope_case": {"scope": scope, "input": inp}, "classes": cs, "modules": mods, "note": "distinct classes share one module file"})
+            continue
+        if isinstance(got, tuple):
+            continue
+        py = got if scope == "attrs" else [g[2] for g in got]
+        dup = len(set(py)) != len(py)
+        reserved = scope == "params" and any(x in ("client", "url") for x in py)
+        invalid = [x for x in py if not x.isidentifier() or keyword.iskeyword(x)]
+        if dup or reserved or invalid:
+            fails.append((scope, inp, got, py, dup, reserved, invalid))
+    if not fails:
+        return
+    g1, g2 = [], []
+    for scope, inp, got, py, dup, reserved, invalid in fails:
+        if scope == "attrs":
+            g1.append(f"g_no_raw_fallback fp {cstrs(inp)}")
+            g2.append(f"forallb g_xid {cstrs(inp)}")
+        else:
+            g1.append(f"g_last_pass_quiet fp (order_params (map (param_init fp) {cparams(inp)}))")
+            g2.append(f"forallb g_xid {cstrs([x[1] for x in inp])}")
+    gb = run_cases(HDR2, g1 + g2, shard=100)
+    out1, out2 = {i for i in gb if i < len(g1)}, {i - len(g1) for i in gb if i >= len(g1)}
+    from openapi_python_client.utils import PythonIdentifier
+    for k, (scope, inp, got, py, dup, reserved, invalid) in enumerate(fails):
+        case = {"scope_case": {"scope": scope, "input": inp}, "python_names": py}
+        names = inp if scope == "attrs" else [g[1] for g in got]
+        if dup or reserved:
+            if k not in out1:
+                run.violation("oracle", {**case, "note": "inside the proved domain (guard of attrs_distinct / params_distinct_quiet true) yet python names are not pairwise distinct / reserved"})
+            elif scope == "attrs":
+                if not run.known_finding("attr_rename_unchecked", f"model attributes: names {inp!r} -> python names {py!r}: a raw-name fallback rename is not re-checked against third parties"):
+                    run.violation("oracle", {**case, "note": "two attributes silently share one python name"})
+            else:
+                if not run.known_finding("param_rename_unchecked", f"operation parameters {inp!r} -> python names {py!r}: a rename made in the last run of _check_parameters_for_conflicts is not re-checked"):
+                    run.violation("oracle", {**case, "note": "two parameters silently share one python name"})
+        if invalid:
+            # exact structural test: every invalid name is the raw-name fallback of its own document name (and differs from the default name)
+            rawfb = all(any(x == str(PythonIdentifier(nm, "field_", skip_snake_case=True)) and x != str(PythonIdentifier(nm, "field_")) and py[i] == x
+                            for i, nm in enumerate(names)) for x in invalid)
+            if rawfb:
+                if run.known_finding("raw_fallback", f"{scope}: names {inp!r} collide after snake_case; raw-name fallback yields {invalid!r} (not identifiers)"):
+                    continue
+            if k in out2:
+                if run.known_finding("xid_gap", f"{scope}: names {inp!r} -> {invalid!r} not identifiers (\\w character outside XID_Continue survives sanitize)"):
+                    continue
+            run.violation("oracle", {**case, "invalid": invalid, "note": "python name is not a valid non-keyword identifier (not a raw-name fallback, no xid-gap character)"})
 
 
 # ------------------------------------------------------------------ name sets per scope through the parser
